@@ -338,7 +338,14 @@ func run(c Case) (pbt.Outcome, error) {
 			for _, b := range c.VSpecs[op.Spec%len(c.VSpecs)] {
 				sp = append(sp, b.V())
 			}
-			p = try(func() { sc.Histogram(raw, tally.ValueBuckets(append([]float64(nil), sp...))).RecordValue(op.F.V()) })
+			p = try(func() {
+				arg := tally.ValueBuckets(append([]float64(nil), sp...))
+				h := sc.Histogram(raw, arg)
+				for i := range arg {
+					arg[i] = -12345.5 // the slice is the caller's: what it does with it afterwards changes nothing
+				}
+				h.RecordValue(op.F.V())
+			})
 			s := get(name, labels)
 			s.spec = sp
 			s.samples = append(s.samples, op.F.V())
@@ -358,7 +365,12 @@ func run(c Case) (pbt.Outcome, error) {
 				sp = append(sp, time.Duration(b))
 			}
 			p = try(func() {
-				sc.Histogram(raw, tally.DurationBuckets(append([]time.Duration(nil), sp...))).RecordDuration(time.Duration(op.I))
+				arg := tally.DurationBuckets(append([]time.Duration(nil), sp...))
+				h := sc.Histogram(raw, arg)
+				for i := range arg {
+					arg[i] = -12345
+				}
+				h.RecordDuration(time.Duration(op.I))
 			})
 			s := get(name, labels)
 			s.spec, s.dspec = nil, c.DSpecs[op.Spec%len(c.DSpecs)]
